@@ -131,7 +131,10 @@ Record InvV (reg0 : option index) (s : state) : Prop := {
 Lemma invV_init r0 st0 : InvV r0 (init r0 st0).
 Proof.
   constructor; simpl; intros; try discriminate; try tauto; try (now constructor); auto.
-  destruct H; discriminate.
+  - destruct H; discriminate.
+  - destruct (is_cur r0 x) eqn:E.
+    + left. unfold is_cur in E. destruct r0 as [c|]; [|discriminate]. apply index_eqb_true in E. now subst.
+    + right; left. apply filter_In. split; auto. now rewrite E.
 Qed.
 
 Ltac solveV t :=
